@@ -4,6 +4,8 @@ import (
 	"bytes"
 	"context"
 	"fmt"
+	"net"
+	"runtime"
 	"sync"
 	"testing"
 	"time"
@@ -490,6 +492,113 @@ func genReq(t *rapid.T, level string) reqCase {
 
 var chkA = harness.Define("assembler-replies", func(t *rapid.T) reqCase { return genReq(t, "A") }, runReq)
 var chkB = harness.Define("server-replies", func(t *rapid.T) reqCase { return genReq(t, "B") }, runReq)
+
+// ---------------------------------------------------------------------------
+// several connections sending rejected frames at the same time
+
+type crowdCase struct {
+	Conns   int    `json:"conns"`
+	PerConn int    `json:"per_conn"`
+	Seed    uint64 `json:"seed"`
+	Procs   int    `json:"procs"`
+}
+
+// rejectedFrame builds the k-th frame of connection ci: a frame the server answers with an exception that must carry the frame's own
+// transaction id, unit id and function code: not Modbus (8 bytes, protocol id 1), unsupported function, or out-of-range quantity.
+func rejectedFrame(seed uint64, ci, k int) (frame, want []byte) {
+	s := seed + uint64(ci)*1000003 + uint64(k)*7919
+	v := harness.SplitMix64(&s)
+	tx, unit := uint16(v), uint8(v>>16)
+	switch (ci + k) % 3 {
+	case 0:
+		fc := uint8(1 + (v>>24)%4)
+		frame = []byte{byte(tx >> 8), byte(tx), 0, 1, 0, 6, unit, fc}
+		return frame, nil // code checked loosely: addressed 9-byte exception
+	case 1:
+		fc := unsupported[int(v>>24)%len(unsupported)]
+		frame = spec.Frame(spec.TCP, tx, unit, []byte{fc, 1, 2, 3})
+		return frame, exception(frame, 1)
+	}
+	frame = spec.EncodeRequest(spec.TCP, spec.Req{FC: 3, Unit: unit, Tx: tx, Addr: 1, Qty: 126 + uint16(v>>24)%100})
+	return frame, exception(frame, 3)
+}
+
+func runCrowd(c crowdCase) harness.Result {
+	if c.Procs > 0 {
+		old := runtime.GOMAXPROCS(c.Procs)
+		defer runtime.GOMAXPROCS(old)
+	}
+	l := xport.NewPipeListener()
+	s := &server.Server{ReadTimeout: 20 * time.Millisecond, WriteTimeout: 2 * time.Second, OnErrorFunc: func(error) {}}
+	ctx, cancel := context.WithCancel(context.Background())
+	var wg sync.WaitGroup
+	wg.Add(1)
+	go func() {
+		defer wg.Done()
+		_ = s.Serve(ctx, l, &srv.Handler{Dev: device.New(c.Seed)})
+	}()
+	defer func() {
+		cancel()
+		_ = l.Close()
+		wg.Wait()
+	}()
+	errs := make([]error, c.Conns)
+	var cw sync.WaitGroup
+	start := make(chan struct{})
+	for ci := 0; ci < c.Conns; ci++ {
+		conn, err := l.Dial()
+		if err != nil {
+			return harness.Fail("harness: %v", err)
+		}
+		defer conn.Close()
+		cw.Add(1)
+		go func(ci int, conn net.Conn) {
+			defer cw.Done()
+			col := srv.Collect(conn)
+			<-start
+			got := 0
+			for k := 0; k < c.PerConn; k++ {
+				frame, want := rejectedFrame(c.Seed, ci, k)
+				_ = conn.SetWriteDeadline(time.Now().Add(5 * time.Second))
+				if _, err := conn.Write(frame); err != nil {
+					errs[ci] = fmt.Errorf("connection %d: write of frame %d failed: %v", ci, k, err)
+					return
+				}
+				all := col.WaitLen(got+9, 10*time.Second)
+				if len(all) < got+9 {
+					errs[ci] = fmt.Errorf("connection %d: no 9-byte exception for the rejected frame %x within 10 s (received %x)", ci, frame, all[got:])
+					return
+				}
+				out := all[got : got+9]
+				got += 9
+				if want == nil {
+					want = exception(frame, out[8])
+				}
+				if !bytes.Equal(out, want) {
+					errs[ci] = fmt.Errorf("connection %d (one of %d sending rejected frames at the same time): frame %x was answered with %x, want %x", ci, c.Conns, frame, out, want)
+					return
+				}
+			}
+		}(ci, conn)
+	}
+	close(start)
+	cw.Wait()
+	for _, e := range errs {
+		if e != nil {
+			return harness.Result{Err: e, NonTrivial: true}
+		}
+	}
+	return harness.Result{NonTrivial: c.Conns >= 2, Labels: []string{fmt.Sprintf("crowd:%d", c.Conns)}, Weight: int64(c.Conns * c.PerConn)}
+}
+
+var chkCrowd = harness.Define("concurrent-rejections",
+	func(t *rapid.T) crowdCase {
+		return crowdCase{Conns: rapid.IntRange(2, 8).Draw(t, "conns"), PerConn: rapid.IntRange(5, 40).Draw(t, "per_conn"), Seed: rapid.Uint64().Draw(t, "seed"), Procs: rapid.SampledFrom([]int{2, 4, 16}).Draw(t, "procs")}
+	}, runCrowd)
+
+func TestCrowd(t *testing.T) {
+	chkCrowd.Rapid(t, harness.Pick(12, 300))
+}
 
 func TestFindings(t *testing.T) {
 	harness.Probe(t, kfParser125, func(fd harness.Finding) (bool, string) {
